@@ -1,4 +1,5 @@
 # flake8: noqa F405
+import copy
 import logging
 
 from datetime import datetime
@@ -104,6 +105,10 @@ def rule(*patterns: Union[str, Predicate]) -> Callable[[Any], ProductionRule]:
                 # e.g. 31.04. or 30.02.2019: matched but failed
                 return None
             if res is not None:
+                if any(res is a for a in args):
+                    # the production handed back one of its arguments, which is
+                    # shared with other partial parses: widen the span of a copy
+                    res = copy.copy(res)
                 # upon a successful production, update the span
                 # information by expanding it to that of all args
                 res.update_span(*args)
